@@ -1240,6 +1240,9 @@ class Evaluator:
             return Method(o, n.attr)
         if isinstance(o, list):
             return Method(o, n.attr)
+        if isinstance(o, str) and ("str." + n.attr) in self.ex.contract.handlers and n.attr != "format":
+            hm = self.ex.contract.handlers["str." + n.attr]        # a method of a string LITERAL with a contract (" ".join(tokens), ...)
+            return PyCallable(lambda ev2, args, kwargs, node: hm(ev2.ex, ev2.st, o, args, kwargs, node, ev2))
         if isinstance(o, str) and n.attr == "format":
             hf = self.ex.contract.handlers.get("str.format")      # a contract may give formatted strings a meaning (keys built from a counter)
             if hf is not None:
@@ -1665,13 +1668,18 @@ class Evaluator:
                 and len(it.args) == 1 and not it.keywords):
             inner = self._concrete_items(it.args[0])
             return None if inner is None else inner[::-1]
-        if isinstance(it, (ast.Name, ast.Attribute, ast.Subscript, ast.Tuple, ast.List)):
+        if isinstance(it, (ast.Name, ast.Attribute, ast.Subscript, ast.Tuple, ast.List, ast.Set)):
             try:
                 v = self.eval(it)
             except Outside:
                 return None
             if isinstance(v, (tuple, list)):
                 return list(v)
+            if isinstance(v, frozenset) and all(isinstance(x, (str, int)) for x in v):
+                # a set display of literals: SOME order (sorted here); a contract whose result could depend on the order must say so
+                self.ex.notes.append("iteration over a set display: the order is unspecified in Python; executed in sorted order") \
+                    if "iteration over a set display: the order is unspecified in Python; executed in sorted order" not in self.ex.notes else None
+                return sorted(v, key=repr)
         return None
 
     def e_ListComp(self, n):
